@@ -59,6 +59,9 @@ func runC06(p *Prog, r *Report) {
 	if want("C06.6") {
 		ruleRecoveredLevelZero(p, r, "C06.6")
 	}
+	if want("C06.7") {
+		ruleBaseLevel(p, r, "C06.7")
+	}
 }
 
 func ruleWriterOrderAndBounds(p *Prog, r *Report, rule string) {
